@@ -559,6 +559,11 @@ type RaceCase struct {
 	Perturb    []int `json:"perturb"`  // per goroutine: perturbation between barrier release and End
 	WithTS     []int `json:"with_ts"`  // per goroutine: 1 = End(WithTimestamp(g-specific))
 	Mutators   int   `json:"mutators"` // extra goroutines calling SetAttributes on the spans meanwhile
+	// AttrLimit: 0 = unlimited; 1..3 = AttributeCountLimit, and the spans are
+	// pre-filled to the limit so that the mutators' same-key updates take the
+	// in-place update path of a full span (the path on which a mutation that
+	// slips past End would alter the already exported snapshot).
+	AttrLimit int `json:"attr_limit,omitempty"`
 }
 
 func genRace(t *rapid.T) RaceCase {
@@ -570,6 +575,9 @@ func genRace(t *rapid.T) RaceCase {
 	c.Perturb = rapid.SliceOfN(rapid.IntRange(0, 1), c.Goroutines, c.Goroutines).Draw(t, "perturb")
 	c.WithTS = rapid.SliceOfN(rapid.IntRange(0, 1), c.Goroutines, c.Goroutines).Draw(t, "with_ts")
 	c.Mutators = rapid.IntRange(0, 2).Draw(t, "mutators")
+	if c.Mutators > 0 {
+		c.AttrLimit = rapid.SampledFrom([]int{0, 1, 2, 3}).Draw(t, "attr_limit")
+	}
 	return c
 }
 
@@ -585,7 +593,11 @@ func runRace(c RaceCase) ([]vk.Violation, vk.Info) {
 	}
 	clock := &vk.Clock{}
 	procs := make([]*recProcessor, c.Processors)
-	opts := []sdktrace.TracerProviderOption{sdktrace.WithRawSpanLimits(unlimited())}
+	limits := unlimited()
+	if c.AttrLimit > 0 {
+		limits.AttributeCountLimit = c.AttrLimit
+	}
+	opts := []sdktrace.TracerProviderOption{sdktrace.WithRawSpanLimits(limits)}
 	for i := range procs {
 		procs[i] = &recProcessor{clock: clock, ends: map[trace.SpanID][]delivery{}}
 		opts = append(opts, sdktrace.WithSpanProcessor(procs[i]))
@@ -597,6 +609,9 @@ func runRace(c RaceCase) ([]vk.Violation, vk.Info) {
 	for i := range spans {
 		starts[i] = time.Unix(1700000000+int64(i), 0)
 		_, spans[i] = tr.Start(context.Background(), "s", trace.WithTimestamp(starts[i]))
+		if c.AttrLimit > 0 {
+			spans[i].SetAttributes(attribute.Int("m", -1), attribute.Int("i", -1), attribute.Int("x", -1))
+		}
 	}
 	arrived := make([]atomic.Int32, c.Spans)
 	stillRecording := atomic.Int32{}
@@ -606,9 +621,11 @@ func runRace(c RaceCase) ([]vk.Violation, vk.Info) {
 		mwg.Add(1)
 		go func(m int) {
 			defer mwg.Done()
+			round := 0
 			for !stop.Load() {
+				round++
 				for i := range spans {
-					spans[i].SetAttributes(attribute.Int("m", m), attribute.Int("i", i))
+					spans[i].SetAttributes(attribute.Int("m", m*1000000+round), attribute.Int("i", i*1000000+round))
 				}
 				runtime.Gosched()
 			}
@@ -663,6 +680,7 @@ func runRace(c RaceCase) ([]vk.Violation, vk.Info) {
 	info.NonTrivial = true
 	info.ClassIf(c.Trace, "runtime_trace_enabled")
 	info.ClassIf(c.Mutators > 0, "concurrent_mutators")
+	info.ClassIf(c.AttrLimit > 0, "spans_full_at_attribute_limit")
 	info.ClassIf(c.Goroutines >= 4, "four_or_more_enders")
 	return vs, info
 }
